@@ -780,6 +780,8 @@ def roundtrip_mol(ctx, rng, m, version, default, container, edges=False, with_he
     if container in ("molfile", "convert_molfile"):
         f = mol.MOLFile()
         header_first = rng.random() < 0.5
+        if with_header and ctx.index % 3 == 0:
+            _ = f.header              # a file whose header was looked at before it is replaced
         if with_header and header_first:
             f.header = mol.Header(**hkw)
         if container == "molfile":
@@ -790,6 +792,11 @@ def roundtrip_mol(ctx, rng, m, version, default, container, edges=False, with_he
             return None
         if with_header and not header_first:
             f.header = mol.Header(**hkw)
+        if with_header:
+            # the file object answers with the header it was given (no file round trip: the fields as assigned)
+            given = mol.Header(**hkw)
+            compare_header(ctx, f.header, {k: getattr(given, k) for k in HEADER_FIELDS},
+                           what + ": header of the file object after assignment")
         reader = None
         if ctx.index % 4 == 1:
             from vf.core import through_disk
